@@ -261,7 +261,10 @@ func init() {
 			}
 			return p
 		}})
-	plans["C17"] = []string{"c17-panel"}
+	// c16-usage under C17: the periodic uploader itself (not its two steps called
+	// by hand), with an injected manager error in a tenth of the runs: the rounds
+	// after a failed one still reach the manager
+	plans["C17"] = []string{"c17-panel", "c16-usage"}
 	register(&Family{Name: "c16-overlap", Count: func(tier string) int { return map[string]int{"quick": 2000, "thorough": 100000}[tier] },
 		Gen: genC17, New: func() any { return &C17Scenario{} }, Run: runPanelUsage, VirtCap: 10 * time.Minute,
 		Policy: func(g *Gen) simsync.PolicyConfig {
